@@ -6,7 +6,8 @@
      lines   UTF-16 length of every line of the document AT REQUEST TIME (LSP line splitting)
      kind    which structure the record carries:
        "ranges"      rs  = << <<l0,c0,l1,c1>> ... >>            every Range / Location / Position of a result
-       "semtok"      data = << ints >>, ntypes, nmods           semanticTokens/full + the advertised legend
+       "semtok"      data = << ints >>, ntypes, nmods, multiline semanticTokens/full + the advertised legend + whether the
+                                                                client of that session announced multilineTokenSupport
        "symbols"     nodes = << <<parent, r, sel>> ... >>       DocumentSymbol tree, parent = index or 0
        "folding"     folds = << <<startLine, endLine>> ... >>
        "selection"   chains = << << r_inner, r_parent, ... >> ... >>
@@ -48,7 +49,15 @@ All(s, P(_)) == \A k \in 1..Len(s) : P(s[k])
 Groups == Len(R.data) \div 5
 Enc == [k \in 1..Groups |-> [dl |-> R.data[5 * k - 4], ds |-> R.data[5 * k - 3], len |-> R.data[5 * k - 2]]]
 Toks == ST!Decode(Enc, 0, 0)
-TokInDoc(t) == t.line < Len(Lines) /\ t.col + t.len <= Lines[t.line + 1]
+\* A client WITHOUT multilineTokenSupport must get tokens that lie inside their line (UTF-16 length without the
+\* terminator).  A client WITH it may get a token that runs over line ends: it must start inside its line and end
+\* inside the document (a line end counts as at most 2 units).
+RECURSIVE Rest(_)
+Rest(l) == IF l >= Len(Lines) THEN 0 ELSE Lines[l + 1] + 2 + Rest(l + 1)
+TokInLine(t) == t.line < Len(Lines) /\ t.col + t.len <= Lines[t.line + 1]
+Multiline == "multiline" \in DOMAIN R /\ R.multiline          \* absent = not announced
+TokInDoc(t) == IF Multiline THEN t.line < Len(Lines) /\ t.col <= Lines[t.line + 1] /\ t.col + t.len <= Rest(t.line)
+                              ELSE TokInLine(t)
 RECURSIVE Pow2(_)
 Pow2(n) == IF n = 0 THEN 1 ELSE 2 * Pow2(n - 1)
 
